@@ -17,7 +17,7 @@ Con(role, err, lam, truth, rv, script, escript) ==
 
 Snp(val, rv, script) == [val |-> val, rv |-> rv, script |-> script]
 
-Cls(inv, oncall, onset) == [inv |-> inv, oncall |-> oncall, onset |-> onset]
+Cls(inv, oncall, onset) == [inv |-> inv, oncall |-> oncall, onset |-> onset, repr |-> 0, base |-> 0]
 Obj(cls, st0) == [cls |-> cls, st0 |-> st0]
 
 NoFault == [at |-> 0, kind |-> "", n |-> 0]
